@@ -1,5 +1,7 @@
 import Dippy.Props.C16
 #print axioms Dippy.C16.multi_never_ro
+#print axioms Dippy.C16.variable_suffix_not_ro
+#print axioms Dippy.C16.variable_suffix_pattern
 #print axioms Dippy.C16.ro_single
 #print axioms Dippy.C16.dropWhile_ne_semi
 #print axioms Dippy.C16.mem_lstripL
